@@ -20,14 +20,15 @@ def t12 : Tuple := [.i64 1, .i64 2]
 
 /-- re-insert of a present tuple, then delete: live `∅`, log sum `+1` → the tuple comes back. -/
 def witnessResurrect : List Op := [.ins "r" [t12], .ins "r" [t12], .del "r" [t12]]
-/-- delete of an absent tuple, then insert: live `{t}`, log sum `0` → the tuple is lost. -/
-def witnessLoss : List Op := [.del "r" [t12], .ins "r" [t12]]
+/-- delete of an absent tuple (of a known relation), then insert: live `{u, t}`, log sum of `t` is `0`
+    → `t` is lost. -/
+def witnessLoss : List Op := [.ins "r" [[.i64 1, .i64 3]], .del "r" [t12], .ins "r" [t12]]
 
 theorem witnessResurrect_live : liveOf (run realCodec {} witnessResurrect) "r" = [] := by decide
 theorem witnessResurrect_restart :
     liveOf (restart realCodec (run realCodec {} witnessResurrect)).1 "r" = [t12] := by decide
-theorem witnessLoss_live : liveOf (run realCodec {} witnessLoss) "r" = [t12] := by decide
-theorem witnessLoss_restart : liveOf (restart realCodec (run realCodec {} witnessLoss)).1 "r" = [] := by decide
+theorem witnessLoss_live : liveOf (run realCodec {} witnessLoss) "r" = [[.i64 1, .i64 3], t12] := by decide
+theorem witnessLoss_restart : liveOf (restart realCodec (run realCodec {} witnessLoss)).1 "r" = [[.i64 1, .i64 3]] := by decide
 
 theorem C11_refuted : ¬ C11_statement := by
   intro h
